@@ -18,20 +18,6 @@ import (
 	"github.com/elastic/go-ucfg/parse"
 )
 
-var Conf = map[string]func() string{
-	"getset":    Conf_getset,
-	"newfrom":   Conf_newfrom,
-	"merge":     Conf_merge,
-	"unpack":    Conf_unpack,
-	"validate":  Conf_validate,
-	"varexp":    Conf_varexp,
-	"parse":     Conf_parse,
-	"flag":      Conf_flag,
-	"paths":     Conf_paths,
-	"errors":    Conf_errors,
-	"numeric":   Conf_numeric,
-	"fieldopts": Conf_fieldopts,
-}
 
 func unpackGeneric(c *ucfg.Config, opts ...ucfg.Option) string {
 	var m map[string]interface{}
@@ -456,7 +442,9 @@ func Conf_paths() string {
 	dl := strings.Split(d.String(), "\n")
 	sort.Strings(dl)
 	out = append(out, strings.Join(dl, "\n"), fmt.Sprint(d.HasChanged(), d.HasKeyRemoved()))
-	out = append(out, diff.CompareConfigs(c, c).String())
+	dl = strings.Split(diff.CompareConfigs(c, c).String(), "\n")
+	sort.Strings(dl)
+	out = append(out, strings.Join(dl, "\n"))
 	for _, name := range []string{"l.0", "l.5", "a.b.0.c", "a.b.1", "a.x", "l.x", "a.b.2.0", "zz", "l.-1", "l.0x1", "l.01"} {
 		func() {
 			defer func() {
